@@ -204,7 +204,7 @@ class SyncedDict(SyncedCollection, MutableMapping):
                 return
             # Update and save under the lock: otherwise a concurrent mutator can load
             # between the two steps and the reset is lost (or partially applied).
-            with self._thread_lock:
+            with self._mutation_lock:
                 self._update(data)
                 self._save()
         else:
@@ -248,7 +248,7 @@ class SyncedDict(SyncedCollection, MutableMapping):
             return
         # Clear in place: buffered collections may share the container with the
         # buffer, and rebinding the attribute would silently disconnect them.
-        with self._thread_lock:
+        with self._mutation_lock:
             self._data.clear()
             self._save()
 
